@@ -798,6 +798,14 @@ def client_call(h, r):
         d = h.imm.advise_corrupt_share(si, sh, "seeded advisory")
     elif ep == "mcorrupt":
         d = h.mut.advise_corrupt_share(si, sh, "seeded advisory")
+    elif ep == "rtw" and r.get("via") == "adapter":
+        from allmydata.storage_client import _HTTPStorageServer
+        twv = {int(s): ([(t["off"], t["len"], l2b(t["spec"])) for t in v["test"]], [(w["off"], l2b(w["data"])) for w in v["writes"]],
+                        None if v["newlen"] < 0 else v["newlen"]) for s, v in a["tw"].items()}
+        d = _HTTPStorageServer.from_http_client(h.client).slot_testv_and_readv_and_writev(si, (we, rs, cs), twv, [(x["off"], x["len"]) for x in a["rv"]])
+    elif ep == "lease" and r.get("via") == "adapter":
+        from allmydata.storage_client import _HTTPStorageServer
+        d = _HTTPStorageServer.from_http_client(h.client).add_lease(si, rs, cs)
     elif ep == "rtw":
         twv = {int(s): TestWriteVectors(test_vectors=[TestVector(offset=t["off"], size=t["len"], specimen=l2b(t["spec"])) for t in v["test"]],
                                         write_vectors=[WriteVector(offset=w["off"], data=l2b(w["data"])) for w in v["writes"]],
@@ -815,7 +823,12 @@ def client_call(h, r):
     if hasattr(res, "check"):       # a Failure
         if res.check(ClientException):
             return res.value.code, {"k": "none"}, type(res.value).__name__
+        if r.get("via") == "adapter" and status == 401 and type(res.value).__name__ == "RemoteException":
+            return 401, {"k": "none"}, "RemoteException"     # the adapter's spelling of a refused write enabler
         return status, {"k": "other"}, type(res.value).__name__
+    if ep == "rtw" and r.get("via") == "adapter":
+        ok, reads = res
+        return status, {"k": "rtw", "success": bool(ok), "reads": {str(k): [b2l(x) for x in xs] for k, xs in reads.items()}}, "ok"
     if ep == "version":
         body = {"k": "version"} if b"http://allmydata.org/tahoe/protocols/storage/v1" in res else {"k": "other"}
     elif ep == "alloc":
@@ -938,6 +951,9 @@ def exec_twin(g, h, d, writers, r, with_direct, lose=False):
     return e
 
 
+VIA_RNG = random.Random(0)
+
+
 def exec_areadv(g, h, d):
     """slot_readv through the IStorageServer adapter the client uses over HTTP (storage_client._HTTPStorageServer: one
     range read per (share, read vector), in parallel) next to slot_readv of the twin server"""
@@ -1025,6 +1041,10 @@ def twin_trace(rng, work, nevents, zero_read, focus=""):
                 if op in ("write", "abort") and (r["si"], r["sh"]) in g.uploads and eff(r, "us") != g.uploads[(r["si"], r["sh"])][0]:
                     direct = False
                 lose = direct and op == r["ep"] and op in ("rtw", "lease", "abort") and rng.random() < (0.3 if focus == "rtw" else 0.12)
+            if r["ep"] in ("rtw", "lease") and not lose and VIA_RNG.random() < 0.35:
+                # the same request through the IStorageServer adapter the client's publisher / checker uses over HTTP
+                # (storage_client._HTTPStorageServer) instead of the bare StorageClientMutables / StorageClientGeneral
+                r["via"] = "adapter"
             events.append(exec_twin(g, h, d, writers, r, direct, lose=lose))
         if zero_read:
             # a read of length zero, of a share that exists
@@ -1058,6 +1078,8 @@ def main():
     ap.add_argument("--focus", default="")
     a = ap.parse_args()
     rng = random.Random("http-%s-%d" % (a.mode, a.seed))
+    global VIA_RNG
+    VIA_RNG = random.Random("http-via-%d" % a.seed)
     work = tempfile.mkdtemp(prefix="httpdrv", dir="/dev/shm" if os.access("/dev/shm", os.W_OK) else None)
     traces = []
     try:
